@@ -198,14 +198,48 @@ def r13b(run):
     run.floor("R13b", "view-specific predicate uses in generate_for_field", uses, 2)
     # type selection: output_type under self.output, type otherwise
     FP = f.params[1] if len(f.params) > 1 else "f"      # the field parameter
-    sel = [n for n in fa.cfg.nodes if n.kind == "stmt" and isinstance(n.ast, ast.Assign)
-           and isinstance(n.ast.targets[0], ast.Name) and isinstance(n.ast.value, ast.IfExp)
-           and unparse(n.ast.value.test) == "self.output"]
-    ok = bool(sel) and unparse(sel[0].ast.value.body) == f"{FP}.output_type" and unparse(sel[0].ast.value.orelse) == f"{FP}.type"
-    if ok:
-        # the selected type is what the schema is generated from
-        tv = sel[0].ast.targets[0].id
-        ok = any(call_attr(c) == "generate_for_type" and c.args and unparse(c.args[0]) == tv for n, c in fa.all_calls())
+    # the expression handed to generate_for_type, resolved per view through its definitions: in the output view it is
+    # `<field>.output_type` (first, before any fall-back), in the input view `<field>.type` - however the choice is written
+    # (a conditional expression, two branches, a parallel assignment)
+    def primary(n, e, view: bool, depth=0) -> Set[str]:
+        if depth > 6:
+            return {"?"}
+        if isinstance(e, ast.Attribute) and isinstance(e.value, ast.Name) and e.value.id == FP:
+            return {e.attr}
+        if isinstance(e, ast.IfExp):
+            t = unparse(e.test)
+            if t == "self.output":
+                return primary(n, e.body if view else e.orelse, view, depth + 1)
+            if t == "not self.output":
+                return primary(n, e.orelse if view else e.body, view, depth + 1)
+            return primary(n, e.body, view, depth + 1) | primary(n, e.orelse, view, depth + 1)
+        if isinstance(e, ast.BoolOp) and isinstance(e.op, ast.Or):
+            return primary(n, e.values[0], view, depth + 1)
+        if isinstance(e, ast.Name):
+            out: Set[str] = set()
+            for d in fa.rd.defs_of(n, e.id):
+                if d.kind != "stmt" or not isinstance(d.ast, ast.Assign) or len(d.ast.targets) != 1 \
+                        or not isinstance(d.ast.targets[0], ast.Name):
+                    out.add("?")
+                    continue
+                if ("self.output", not view) in _facts(fa, d):
+                    continue            # a definition made in the other view
+                out |= primary(d, d.ast.value, view, depth + 1)
+            return out or {"?"}
+        return {"?"}
+    gens = [(n, c) for n, c in fa.all_calls() if call_attr(c) == "generate_for_type" and c.args]
+    ok = bool(gens)
+    for n, c in gens:
+        if ("self.output", True) in _facts(fa, n):
+            views = [True]
+        elif ("self.output", False) in _facts(fa, n):
+            views = [False]
+        else:
+            views = [True, False]
+        for view in views:
+            got = primary(n, c.args[0], view)
+            if got != ({"output_type"} if view else {"type"}):
+                ok = False
     run.check("R13b", f, "the field's schema is generated from output_type in the output view and type otherwise", ok,
               construct="field type view", message="generate_for_field does not select f.output_type / f.type by self.output",
               necessity="the output schema describes the input type of a field whose output type differs")
